@@ -1292,10 +1292,11 @@ func lenProbeSucceeds(f *ssa.Function, param ssa.Value, n int64, depth int) bool
 
 // c05TableSites: two rules about the four T-tables that hold at every lookup SITE, wherever the lookups are placed
 // (the round body, a helper):
-//  (a) table k combines S with L shifted into byte lane k, so it is indexed with byte k of its argument word —
-//      `sbox0[x&0xff] ^ sbox1[(x>>8)&0xff] ^ …`; another lane at a site is a different function;
-//  (b) the key schedule uses the S-box with the linear transform L' (rotations 13, 23), the T-tables embed L
-//      (2, 10, 18, 24): no function reached from the key schedule reads a T-table.
+//
+//	(a) table k combines S with L shifted into byte lane k, so it is indexed with byte k of its argument word —
+//	    `sbox0[x&0xff] ^ sbox1[(x>>8)&0xff] ^ …`; another lane at a site is a different function;
+//	(b) the key schedule uses the S-box with the linear transform L' (rotations 13, 23), the T-tables embed L
+//	    (2, 10, 18, 24): no function reached from the key schedule reads a T-table.
 func c05TableSites(c *Ctx, tlane map[string]int, ksFuncs map[*ssa.Function]bool) {
 	n := 0
 	for _, f := range c.P.RepoFuncs("sm4") {
